@@ -34,7 +34,7 @@ def one(name):
         res["violation_sigs"] = sorted(set(sigs))[:12]
         res["outcome"] = {0: "MISSED", 1: "DETECTED", 2: "INFRA-ERROR"}.get(p.returncode, "exit %d" % p.returncode)
         if p.returncode == 2:
-            res["infra"] = "\n".join(l for l in p.stdout.splitlines() if "INFRA" in l)[:600]
+            i0 = p.stdout.find("INFRA"); res["infra"] = p.stdout[i0:i0+900]
     except Exception as e:
         res["outcome"] = "sweep error: %r" % e
     finally:
